@@ -9,6 +9,7 @@ import itertools
 import logging
 
 import numpy as np
+import scipy.sparse as sp
 
 logging.disable(logging.CRITICAL)
 
@@ -282,15 +283,20 @@ def fermi_annihilators(nso):
     return ops
 
 
+def _sparse_ladder(nso):
+    a = [sp.csr_matrix(x) for x in fermi_annihilators(nso)]
+    ad = [sp.csr_matrix(x.T) for x in a]
+    return a, ad
+
+
 def fermi_h_spatial(h, eri):
     """H = sum_{pq,s} h_pq a+_{ps} a_{qs} + 1/2 sum_{pqrs,s,t} (pq|rs) a+_{ps} a+_{rt} a_{st} a_{qs};
     spin orbital index = 2*spatial + spin (alpha = 0, beta = 1)."""
     n = len(h)
     nso = 2 * n
-    a = fermi_annihilators(nso)
-    ad = [x.T for x in a]
+    a, ad = _sparse_ladder(nso)
     dim = 2 ** nso
-    H = np.zeros((dim, dim))
+    H = sp.csr_matrix((dim, dim))
     for p, q in itertools.product(range(n), repeat=2):
         if h[p, q] != 0:
             for s in range(2):
@@ -302,21 +308,20 @@ def fermi_h_spatial(h, eri):
         for s1 in range(2):
             for s2 in range(2):
                 H += 0.5 * v * ad[2 * p + s1] @ ad[2 * r + s2] @ a[2 * s + s2] @ a[2 * q + s1]
-    return H
+    return np.asarray(H.todense())
 
 
 def fermi_h_spinorb(h1, h2):
     """H = sum h1[p,q] a+_p a_q + sum h2[p,q,r,s] a+_p a+_q a_r a_s (every non-zero entry as given)"""
     nso = len(h1)
-    a = fermi_annihilators(nso)
-    ad = [x.T for x in a]
+    a, ad = _sparse_ladder(nso)
     dim = 2 ** nso
-    H = np.zeros((dim, dim))
+    H = sp.csr_matrix((dim, dim))
     for p, q in np.argwhere(h1 != 0):
         H += h1[p, q] * ad[p] @ a[q]
     for p, q, r, s in np.argwhere(h2 != 0):
         H += h2[p, q, r, s] * ad[p] @ ad[q] @ a[r] @ a[s]
-    return H
+    return np.asarray(H.todense())
 
 
 def number_ops(nso):
